@@ -625,6 +625,13 @@ func (x *exec) applyContractInfo(st *pstate, c *Contract, ci callInfo, args []Va
 					continue // an owned structure modified in place: handled below
 				}
 			}
+			if sel, isSel := a.(*spec.Selector); isSel {
+				if id, isId := sel.X.(*spec.Ident); isId {
+					if i := indexOf(names, id.Name); i >= 0 && x.p.T.OwnedOf(argTypes[i]) != nil {
+						continue // fields of the root node of an owned structure: handled below
+					}
+				}
+			}
 			t := x.evalAssign(evPre, a)
 			if !x.c.C.Trusted {
 				x.frameCheckRange(st, t, in, ".assigns")
@@ -668,6 +675,36 @@ func (x *exec) applyContractInfo(st *pstate, c *Contract, ci callInfo, args []Va
 			nt := x.env.Fresh("now$"+n, x.p.T.SortOf(argTypes[i]))
 			x.setAbstract(st, r, nt)
 			sc.vars["now$"+n] = SV{T: argTypes[i], Term: nt}
+		case "fields":
+			if r.view {
+				x.ownedViolation(st, in.Pos(), "a read-only view is passed to a call that modifies it")
+			}
+			// only the listed fields of the root node change; handles below stay valid
+			cell := x.materialise(st, r, in)
+			oi := x.ownedInfoOf(r.ptr)
+			for _, fname := range c.C.OwnedFields(n) {
+				fi := -1
+				for k, f := range oi.Fields {
+					if f.Name() == fname {
+						fi = k
+					}
+				}
+				if fi < 0 {
+					panic(specErr{fmt.Sprintf("%s: assigns %s.%s: no such field", c.C.Pos, n, fname)})
+				}
+				nv := x.env.FreshVal("now$"+n+"."+fname, oi.Node.Fields[fi].Sort)
+				if oi.Self[fi] {
+					if old, ok := cell.fields[fi].(*ownedRef); ok {
+						x.markMoved(st, old, true, "the field holding it was overwritten by "+ci.name)
+					}
+					cell.fields[fi] = x.newOwned(nv, oi.Fields[fi].Type())
+				} else {
+					st.assume(x.p.T.Inv(nv, oi.Fields[fi].Type(), 0), "type invariant of a field written by "+ci.name)
+					cell.fields[fi] = nv
+				}
+			}
+			st.epoch++
+			sc.vars["now$"+n] = SV{T: argTypes[i], Term: x.ownedTerm(st, r, in.Pos())}
 		}
 	}
 	// results
